@@ -564,6 +564,8 @@ def rule_schedule_direction(ctx, rule='R06.12'):
 
 
 def run(ctx):
+    from . import pyrules
+    pyrules.rule_keyword_constructor(ctx, 'R05.13')  # Simulation(filename=..., snapshot=k) loads snapshot k
     rule_schedule_direction(ctx)
     from . import pyrules
     pyrules.rule_selector_truthiness(ctx, 'R06.11', ('Simulation', 'Simulationarchive'))   # snapshot 0 is a snapshot
